@@ -45,6 +45,8 @@ EXPLANATION = (
     "shared_mutable_fill over all ComputeGraph methods and the Jacobian hooks).  "
     "R11 (added) the delay emitted in `hist(t - <delay>)` is a value-preserving text (str/repr/plain format) of the delay the group "
     "was keyed by: no stripping/slicing/replacing/digit-limited formatting between the delay symbol and the emitted literal.  "
+    "R4 accepts a pure `if sparse` switch between two complete emitters of the same table; R12 (added) where a matrix is emitted "
+    "directly as (data, indices, indptr) the value list and the index list come from one ordered traversal of the entry table.  "
     "NOT decided: the values of derivatives, DFDP numerics, the vector field itself (C01), the slot arithmetic itself (C18)."
 )
 RULE_TEXT = ("instances = entry-table stores found by def-use from sympy.diff calls, emitter call sites / templates found by name "
@@ -2726,6 +2728,59 @@ def _flag_selects_value_only(ctx, f, call: ast.Call, arg: ast.Name, depth: int) 
     return True
 
 
+class _IdDict(dict):
+    pass
+
+
+def _alternative_emitter_guards(ctx, f, S: Scope, stores, guards, flags) -> dict:
+    """`if sparse: A else: B` (test = the bare flag or its negation; `A; continue` inside a loop counts with B = the rest of the
+    loop body) where BOTH arms contain a complete traversal of the same entry table(s): a loop over `T.items()` / `sorted(T.items())`
+    that lies entirely inside the arm and prints each value through _expr_to_jac_str.  Such a guard switches between two emitters
+    of the same matrix instead of changing which entries exist.  -> {guard If node: set of table roots} (keyed by identity)."""
+    out = {}
+
+    def pure(t):
+        if isinstance(t, ast.UnaryOp) and isinstance(t.op, ast.Not):
+            t = t.operand
+        return isinstance(t, ast.Name) and t.id in flags
+
+    def roots_of(stmts):
+        res = set()
+        for b in stmts:
+            for c in ast.walk(b):
+                if isinstance(c, ast.Call) and call_name(c) == "_expr_to_jac_str" and c.args:
+                    r = table_value(S, c.args[0], stores)
+                    ib = iter_bind(S, c.args[0])
+                    if r is None or ib is None:
+                        return None
+                    loop = ib[0].node
+                    if not any(contains(x, loop) or x is loop for x in stmts):
+                        return None         # the traversal started outside the arm
+                    # the traversal is not cut short inside the arm (a `continue` only after the unprintable-entry test is fine)
+                    for x in ast.walk(loop):
+                        if isinstance(x, (ast.Break, ast.Return)):
+                            return None
+                    res.add(r)
+        return res
+    for g in guards:
+        if not isinstance(g, ast.If) or not pure(g.test):
+            continue
+        body, orelse = g.body, g.orelse
+        if not orelse and body and isinstance(body[-1], ast.Continue):
+            par = parent(g)
+            if isinstance(par, (ast.For, ast.While)) and g in par.body:
+                orelse = par.body[par.body.index(g) + 1:]
+        if not orelse:
+            continue
+        ra, rb = roots_of(body), roots_of(orelse)
+        if ra and rb and ra == rb:
+            out[g] = ra
+    d = _IdDict()
+    for k, v in out.items():
+        d[k] = v
+    return d
+
+
 def r4_sparse_confined(ctx, rid):
     f = cg_func(ctx, "get_jacobian_func")
     S = Scope(ctx, f)
@@ -2798,11 +2853,16 @@ def r4_sparse_confined(ctx, rid):
         if isinstance(c, ast.Call) and call_name(c) in ("emit_local_array_assign", "emit_local_array_alloc", "_expr_to_jac_str", "diff",
                                                         "_get_symbolic_rhs"):
             emitters.append(c)
+    alt = _alternative_emitter_guards(ctx, f, S, stores, guards, flags)
     for e in emitters:
         deps = [a for a in ancestors(e) if isinstance(a, (ast.If, ast.While)) and reads_flag(a.test)]
         deps += [a for a in ancestors(e) if isinstance(a, ast.IfExp) and reads_flag(a.test)]
         label = f"not under sparse: {norm(e)}"
-        if deps:
+        if deps and all(any(d is g for g in alt) for d in deps):
+            ctx.ok(rid, f, e, f"on one arm of a pure `sparse` switch whose two arms both traverse every entry of "
+                              f"`{', '.join(sorted(alt[[g for g in alt if g is deps[0]][0]]))}` (two emitters of the same matrix)",
+                   label=label, nontrivial=False)
+        elif deps:
             ctx.violation(rid, f, e, f"`{norm(e)}` is control dependent on `{norm(deps[0]) if isinstance(deps[0], ast.stmt) else ast.unparse(deps[0].test)}`: "
                                      f"sparse=True would change which entries are computed/emitted, not only the container", label=label)
         else:
@@ -2813,6 +2873,11 @@ def r4_sparse_confined(ctx, rid):
         if isinstance(g, ast.Assign):
             tainted |= {t.id for t in g.targets}
             ctx.ok(rid, f, g, "conditional value selected by `sparse` (flow checked below)", label=f"sparse guard {norm(g)}")
+            continue
+        if any(g is a for a in alt):
+            ctx.ok(rid, f, g, f"pure `sparse` switch between two complete emitters of `{', '.join(sorted(alt[g]))}`: every entry of the "
+                              f"table is traversed on either arm (positions/order of the direct sparse form: C12-R12)",
+                   label=f"sparse guard {norm(g)}")
             continue
         bad = []
         for st in [x for b in g.body + g.orelse for x in ast.walk(b) if isinstance(x, ast.stmt)]:
@@ -2842,6 +2907,8 @@ def r4_sparse_confined(ctx, rid):
                 while not isinstance(st, ast.stmt):
                     st = parent(st)
                 under_guard = any(isinstance(g, ast.If) and g is not st and contains(g, st) for g in guards)
+                if any(contains(a, st) for a in alt):
+                    continue        # inside one of two alternative emitters: judged as an emitter, not as a wrapper choice
                 if isinstance(st, ast.Assign) and all(isinstance(t, ast.Name) or (isinstance(t, (ast.Tuple, ast.List)) and all(
                         isinstance(x, ast.Name) for x in t.elts)) for t in st.targets):
                     new = {x.id for t in st.targets for x in ast.walk(t) if isinstance(x, ast.Name)} - tainted
@@ -3541,6 +3608,153 @@ def r11_delay_literal_is_the_delay(ctx, rid):
                    {"keys": hows}, label=label)
 
 
+_SPARSE_CTORS = ("csr_matrix", "csc_matrix", "coo_matrix", "bsr_matrix", "csr_array", "csc_array", "coo_array")
+
+
+def _sparse_emitter_params(ctx, callee) -> Optional[List[str]]:
+    """If `callee` emits `name = csr_matrix((<data>, <indices>, <indptr>), ...)` (or the coo form `(data, (rows, cols))`): its
+    parameters that supply the sequences, in the order they appear after the constructor's opening `((`."""
+    Sg = Scope(ctx, callee)
+    for n, t, h in templates_spliced(Sg, callee.node):
+        m = re.search(r"\b(" + "|".join(_SPARSE_CTORS) + r")\(\(", t or "")
+        if not m:
+            continue
+        out = []
+        for k in re.findall(r"⟨(\d+)⟩", t[m.end():]):
+            for x in ast.walk(h[int(k)]):
+                if isinstance(x, ast.Name) and x.id in callee.params and x.id not in out:
+                    out.append(x.id)
+        return out
+    return None
+
+
+def r12_sparse_form_from_one_traversal(ctx, rid):
+    """Where a Jacobian matrix is emitted directly in a compressed form (`csr_matrix((data, indices, indptr))`, coo triplets), the
+    k-th value and the k-th index must belong to the same entry: the value sequence and the index sequence have to come out of
+    ONE ordered traversal of the entry table.  The value list is followed to the loop that fills it, the index list to the
+    sequence it is computed from; accepted: indices built in that very loop / from the key list filled in that loop in the same
+    order, or both orders are the sorted key order (`sorted(T.items())` for the values and `sorted(keys)` for the indices).  Values
+    in insertion order against sorted indices (or vice versa) is a violation: within a row the values land in each other's columns."""
+    f = cg_func(ctx, "get_jacobian_func")
+    S = Scope(ctx, f)
+    stores = entry_stores(ctx, f)
+    base = ctx.repo.get_class(BASE, "BaseBackend")
+    family = [base] + list(ctx.repo.subclasses(base, strict=True))
+    n_sites = 0
+    for c in walk_shallow(f.node):
+        if not (isinstance(c, ast.Call) and isinstance(c.func, ast.Attribute)):
+            continue
+        callee = next((k.methods[c.func.attr] for k in family if c.func.attr in k.methods), None)
+        if callee is None:
+            continue
+        sp_params = _sparse_emitter_params(ctx, callee)
+        if not sp_params:
+            continue
+        n_sites += 1
+        a = _call_args(c, [p_ for p_ in callee.params if p_ != callee.self_name], S)
+        label = f"sparse form #{n_sites}: values and indices from one traversal"
+        if len(sp_params) < 2 or any(p_ not in a or not isinstance(a[p_], ast.Name) for p_ in sp_params[:2]):
+            raise AnalysisError(f"{rid}: `{norm(c)}`: cannot identify the value and index sequences handed to {callee.qualname}")
+        V, I = a[sp_params[0]], a[sp_params[1]]
+
+        def appends_to(name_node):
+            root = alias_root(S, name_node)
+            return [x for x in walk_shallow(f.node) if isinstance(x, ast.Call) and isinstance(x.func, ast.Attribute) and x.func.attr == "append"
+                    and isinstance(x.func.value, ast.Name) and x.func.value.id == root and x.args
+                    and S.rd.defs_reaching(x.func.value) == S.rd.defs_reaching_at(_stmt_of(c), root)]
+
+        def _stmt_of(x):
+            while not isinstance(x, ast.stmt):
+                x = parent(x)
+            return x
+
+        def loop_of(x):
+            return next((l for l in ancestors(x) if isinstance(l, ast.For)), None)
+
+        def order_of(it) -> Optional[str]:
+            e = it
+            while isinstance(e, ast.Call) and isinstance(e.func, ast.Name) and e.func.id in ("list", "tuple", "iter") and len(e.args) == 1:
+                e = e.args[0]
+            if isinstance(e, ast.Call) and isinstance(e.func, ast.Name) and e.func.id == "sorted" and len(e.args) == 1:
+                return "sorted" if not e.keywords else None
+            if isinstance(e, ast.Call) and isinstance(e.func, ast.Name) and e.func.id in ("reversed", "set", "frozenset"):
+                return None
+            return "as-is"
+        va = appends_to(V)
+        if len(va) != 1 or loop_of(va[0]) is None:
+            raise AnalysisError(f"{rid}: `{norm(c)}`: the value list `{V.id}` is not filled by one append inside a loop (unrecognised form)")
+        L = loop_of(va[0])
+        v_order = order_of(L.iter)
+        # the values are the table values of L's entries
+        vsrc = S.single_value(va[0].args[0])
+        varg = vsrc.args[0] if isinstance(vsrc, ast.Call) and call_name(vsrc) == "_expr_to_jac_str" and vsrc.args else None
+        tv = table_value(S, varg, stores) if varg is not None else None
+        vib = iter_bind(S, varg) if varg is not None else None
+        if tv is None or vib is None or vib[0].node is not L:
+            raise AnalysisError(f"{rid}: `{norm(c)}`: the values in `{V.id}` are not _expr_to_jac_str(<value of the traversed entry>)")
+        # the index sequence
+        i_order, K = None, None
+        ia = appends_to(I)
+        comp = None
+        if ia:
+            if len(ia) != 1 or loop_of(ia[0]) is not L or parent(_stmt_of(ia[0])) is not parent(_stmt_of(va[0])):
+                raise AnalysisError(f"{rid}: `{norm(c)}`: the index list `{I.id}` is filled elsewhere than the value list (unrecognised form)")
+            i_order, key_elts = "same-loop", [ia[0].args[0]]
+        else:
+            n0 = I
+            for _ in range(6):
+                bs = S.binds(n0)
+                if len(bs) == 1 and bs[0].kind == "value" and not bs[0].path and isinstance(bs[0].expr, ast.Name):
+                    n0 = bs[0].expr
+                else:
+                    break
+            bs = S.binds(n0)
+            v = bs[0].expr if len(bs) == 1 and bs[0].kind == "value" and not bs[0].path else None
+            while isinstance(v, ast.Call) and isinstance(v.func, ast.Name) and v.func.id in ("list", "tuple") and len(v.args) == 1:
+                v = v.args[0]
+            if not (isinstance(v, (ast.ListComp, ast.GeneratorExp)) and len(v.generators) == 1 and not v.generators[0].ifs):
+                raise AnalysisError(f"{rid}: `{norm(c)}`: cannot see how the index list `{I.id}` is computed (unrecognised form)")
+            comp = v
+            src = comp.generators[0].iter
+            i_order = order_of(src)
+            e = src
+            while isinstance(e, ast.Call) and isinstance(e.func, ast.Name) and e.func.id in ("sorted", "list", "tuple") and e.args:
+                e = e.args[0]
+            if not isinstance(e, ast.Name):
+                raise AnalysisError(f"{rid}: `{norm(c)}`: the index list is not computed from a key list (unrecognised form)")
+            K = e
+            ka = appends_to(K)
+            if len(ka) != 1 or loop_of(ka[0]) is not L or parent(_stmt_of(ka[0])) is not parent(_stmt_of(va[0])):
+                raise AnalysisError(f"{rid}: `{norm(c)}`: the key list `{K.id}` is not filled next to the value list in the same loop")
+            kt = S.single_value(ka[0].args[0])
+            key_elts = list(kt.elts) if isinstance(kt, ast.Tuple) else [kt]
+        # the keys recorded are the (row, column) of the same entry
+        kcs = [key_component(S, x, stores) for x in key_elts if isinstance(x, ast.Name)]
+        if len(kcs) != len(key_elts) or any(k is None or k[2] is not L for k in kcs):
+            raise AnalysisError(f"{rid}: `{norm(c)}`: the recorded keys are not the key components of the traversed entry")
+        facts = {"table": tv, "value_traversal": ast.unparse(L.iter), "value_order": v_order, "index_order": i_order,
+                 "index_source": ast.unparse(comp.generators[0].iter) if comp is not None else "same loop"}
+        if len(key_elts) == 2 and (kcs[0][1], kcs[1][1]) != (0, 1):
+            ctx.violation(rid, f, c, f"`{norm(c)}`: the key recorded for each value is not (row, column) of its entry (components "
+                                     f"{kcs[0][1], kcs[1][1]}): the matrix is transposed", facts, label=label)
+        elif i_order == "same-loop" or i_order == "as-is":
+            ctx.ok(rid, f, c, f"values and indices are listed in the order of one traversal (`{ast.unparse(L.iter)}`)", facts, label=label)
+        elif i_order == "sorted" and v_order == "sorted":
+            ctx.ok(rid, f, c, f"values are listed in sorted key order (`{ast.unparse(L.iter)}`) and the indices in sorted key order "
+                              f"(`{facts['index_source']}`): the same order, the keys being unique", facts, label=label)
+        elif i_order == "sorted" and v_order == "as-is":
+            ctx.violation(rid, f, c, f"`{norm(c)}`: the indices are listed in SORTED key order (`{facts['index_source']}`) but the values in "
+                                     f"the table's insertion order (`{ast.unparse(L.iter)}`): entries that were not stored in ascending "
+                                     f"(row, column) order (the history tables are filled delay group by delay group) get each other's "
+                                     f"columns", facts, label=label)
+        else:
+            raise AnalysisError(f"{rid}: `{norm(c)}`: cannot compare the order of the values (`{ast.unparse(L.iter)}`) with the order of "
+                                f"the indices (`{facts['index_source']}`)")
+    if n_sites == 0:
+        ctx.ok(rid, f, f.node, "no matrix is emitted directly in a compressed (data, indices) form in this tree", label="no direct sparse form",
+               nontrivial=False)
+
+
 def r10_tables_are_distinct_objects(ctx, rid):
     """Entries of different Jacobian matrices must live in different containers.  The per-delay tables (`T[d][(row, col)] = v`)
     are values of one outer dict; every key of that dict needs its OWN inner dict, otherwise an entry stored for one delay shows
@@ -3672,4 +3886,5 @@ RULES = [
     ("C12-R9", r9_jacobian_parameter_slots, 4),          # hand-over, zip pairing, dfdp(i,k), __PYR_ARG_k__
     ("C12-R10", r10_tables_are_distinct_objects, 1),     # the per-delay table J_hist
     ("C12-R11", r11_delay_literal_is_the_delay, 1),      # the one hist(t - <delay>) line
+    ("C12-R12", r12_sparse_form_from_one_traversal, 0),  # today no direct sparse form exists (dense matrix wrapped by csr_matrix)
 ]
